@@ -52,7 +52,7 @@ Proof. exact run_method_np. Qed.
 
 (* a fault of class error or panic raised by the calling goroutine's own code is an error of Func.Eval *)
 Theorem C05_main_fault_is_error : forall S D sc f,
-  (fault_raw D f = RErr \/ fault_raw D f = RPanic) ->
+  (fault_raw S D f = RErr \/ fault_raw S D f = RPanic) ->
   class S D sc (PLeaf f) = CErr /\ class S D sc (PCall (PLeaf f)) = CErr.
 Proof. exact main_fault_is_error. Qed.
 
@@ -77,12 +77,12 @@ Proof. exact eval_try_keeps_values. Qed.
 
 (* ---- the property ---- *)
 
-Theorem C05_no_fatal_partial : forall D sc p, leaves_ok D p = true -> class code_sites D sc p <> CFatal.
+Theorem C05_no_fatal_partial : forall D sc p, leaves_ok code_sites D p = true -> class code_sites D sc p <> CFatal.
 Proof. exact no_fatal_partial_code. Qed.
 
 (* for any placement of the recovers: no panic source below a goroutine boundary that has no recover *)
 Theorem C05_no_fatal_sites_partial : forall S D sc p,
-  leaves_ok D p = true -> guarded S D p = true -> class S D sc p <> CFatal.
+  leaves_ok S D p = true -> guarded S D p = true -> class S D sc p <> CFatal.
 Proof. exact no_fatal_partial_sites. Qed.
 
 (* for every stack capacity there is a program that kills the process *)
@@ -127,14 +127,27 @@ Qed.
 
 (* recursion through fresh storages: for every capacity of the Go stack a finite depth exhausts it,
    and the guard never fires *)
-Theorem C05_unguarded_recursion_refuted : forall D frames, 1 <= frames ->
-  fault_raw D (FRecFresh frames (D + 1)) = RFatal.
+Theorem C05_unguarded_recursion_refuted : forall S D frames, 1 <= frames ->
+  fault_raw S D (FRecFresh frames (D + 1)) = RFatal.
 Proof. exact rec_fresh_exceeds_any_stack. Qed.
+
+(* recursion whose recursive call sits in the closure handed to a method m: an error (never fatal) when m
+   runs the closure on the caller's storage, fatal at some finite depth when m starts a fresh storage
+   (s_fresh code_sites = list.map, list.accept, list.multiUse: the three known findings) *)
+Theorem C05_recursion_through_guarded_method_partial : forall S D m slots frames depth,
+  mem_str m (s_fresh S) = false -> 1 <= slots -> (guard_limit + 2) * frames <= D ->
+  fault_raw S D (FRecThrough m slots frames depth) <> RFatal.
+Proof. exact rec_through_guarded. Qed.
+
+Theorem C05_recursion_through_fresh_method_refuted : forall S D m slots frames,
+  mem_str m (s_fresh S) = true -> 1 <= frames ->
+  fault_raw S D (FRecThrough m slots frames (D + 1)) = RFatal.
+Proof. exact rec_through_fresh_fatal. Qed.
 
 (* non-vacuity: a host panic in a forced-parallel map below a try is caught; a program with all context kinds is safe *)
 Example C05_nonvacuous :
   class code_sites 1000 all_par (PTry (PStage 0 (PCall (PLeaf FHostPanic)))) = CCatch /\
-  leaves_ok 1000 (PMultiUse [PDown 0 (PStage 1 (PLeaf FHostPanic)); PMergeOp (PMergeLess (PLeaf FOpErr))]) = true /\
+  leaves_ok code_sites 1000 (PMultiUse [PDown 0 (PStage 1 (PLeaf FHostPanic)); PMergeOp (PMergeLess (PLeaf FOpErr))]) = true /\
   class code_sites 1000 all_par (PMultiUse [PDown 0 (PStage 1 (PLeaf FHostPanic)); PMergeOp (PMergeLess (PLeaf FOpErr))]) = CErr.
 Proof. repeat split; reflexivity. Qed.
 
@@ -159,3 +172,5 @@ Print Assumptions C05_guard_bounds_storage.
 Print Assumptions C05_guard_bounds_depth.
 Print Assumptions C05_guarded_recursion_is_an_error.
 Print Assumptions C05_unguarded_recursion_refuted.
+Print Assumptions C05_recursion_through_guarded_method_partial.
+Print Assumptions C05_recursion_through_fresh_method_refuted.
